@@ -77,6 +77,10 @@ impl Sub for RoundTrip {
           }
         }
       }
+      if c.before & 96 != 0 {
+        let kind = (if c.before & 32 != 0 { 3 } else { 0 }) | (if c.before & 64 != 0 { 4 } else { 0 });
+        let _ = callbacks_misbehave(p, &lk, kind);
+      }
       if c.before & 16 != 0 {
         for bad in ["", "v4.local.", "not a token", &token[..token.len() / 2]] {
           let _ = layer_parse(p, l, &lk, bad, footer.as_deref(), assertion.as_deref());
